@@ -6,159 +6,19 @@
 //   the unacknowledged map holds n <= VP_NMAX entries with the consecutive keys lastOut-n+1 .. lastOut (oldest first),
 //   n <= lastOut, and no stored packet has been reported yet.  enabled, lastIn are arbitrary.
 // Packets are identified by a ghost id carried by their payload block (pre-state packets: 0..n-1, a newly sent one: NEWID).
-#include <QDomElement>
-#include <QMap>
-#include <QByteArray>
-#include <QString>
-#include <optional>
-#include <variant>
-#include <new>
-#include "QXmppSendResult.h"
-#define private public
-#include "QXmppStreamManagement_p.h"
-#include "QXmppPacket_p.h"
-#undef private
-#include "XmppSocket.h"
-#include "QXmppConstants_p.h"
-#include "vp_harness.h"
-#include "vp_dom.h"
-
-using namespace QXmpp;
-using namespace QXmpp::Private;
-
-#ifndef VP_NMAX
-#define VP_NMAX 3
-#endif
-#define NEWID 7u
-#define SEQ_BOUND 0x7fffffffu
-enum { K_PACKET = 1, K_ACK = 2, K_REQ = 3, K_OTHER = 4 };
-
-extern "C" {
-void vp_c09_payload(QByteArray *out, unsigned id);        // payload block carrying the ghost id `id`
-unsigned vp_c09_payload_id(const QByteArray *b);          // ghost id of a payload block
-bool vp_c09_send(const QByteArray *b);                    // socket write: appended to the ghost log, result nondeterministic
-unsigned vp_c09_sent_n();                                 // ghost log of socket writes
-unsigned vp_c09_sent_kind(unsigned i);                    // K_PACKET (val = ghost id) | K_ACK (val = h) | K_REQ | K_OTHER
-unsigned vp_c09_sent_val(unsigned i);
-bool vp_c09_sent_ok(unsigned i);                          // what the socket answered to write i
-unsigned vp_c09_map_n(const void *map);                   // class-level QMap<uint,QXmppPacket> model: ordered array
-unsigned vp_c09_map_key(const void *map, unsigned i);
-QXmppPacket *vp_c09_map_val(const void *map, unsigned i);
-// element copy/destroy of the container model = the real QXmppPacket copy constructor / destructor
-void vp_c09_pkt_copy(void *dst, const void *src) { new (dst) QXmppPacket(*static_cast<const QXmppPacket *>(src)); }
-void vp_c09_pkt_destroy(void *p) { static_cast<QXmppPacket *>(p)->~QXmppPacket(); }
-bool vp_c09_false();
-// serializeXml<SmAck>/<SmRequest> are overridden by models (models.c) that run the REAL toXml into the writer tree model; these
-// hooks make the real toXml functions part of the translated program without any function pointer in between
-void vp_c09_toxml_ack(const QXmpp::Private::SmAck *a, QXmlStreamWriter *w) { a->toXml(w); }
-void vp_c09_toxml_req(const QXmpp::Private::SmRequest *r, QXmlStreamWriter *w) { r->toXml(w); }
-}
-// the socket: XmppSocket::sendData is virtual; everything else of the socket is never touched by StreamAckManager
-struct FakeSock final : XmppSocket {
-    FakeSock() : XmppSocket(nullptr) { }
-    bool sendData(const QByteArray &b) override { return vp_c09_send(&b); }
-};
-
-enum Rep { R_NONE = 0, R_ACKED = 1, R_SENT = 2, R_ERROR = 3 };
-using Task = QXmppTask<SendResult>;
-static Rep report(Task &t)
-{
-    if (!t.isFinished()) return R_NONE;
-    const SendResult &r = t.result();
-    if (auto *s = std::get_if<SendSuccess>(&r)) return s->acknowledged ? R_ACKED : R_SENT;
-    return R_ERROR;
-}
-
-struct World {
-    VpRaw<FakeSock> sockbuf;
-    VpRaw<StreamAckManager> mgrbuf;
-    StreamAckManager *m;
-    unsigned n, lastOut, lastIn, first; bool enabled;
-    std::optional<Task> t[VP_NMAX];
-    World(int enabledMode /* 0 off, 1 on, 2 symbolic */)
-    {
-        if (vp_c09_false()) { vp_c09_pkt_copy(nullptr, nullptr); vp_c09_pkt_destroy(nullptr); vp_c09_toxml_ack(nullptr, nullptr); vp_c09_toxml_req(nullptr, nullptr); }   // keeps the element hooks of the map model in the translated program
-        FakeSock *s = new (sockbuf.b) FakeSock();
-        m = new (mgrbuf.b) StreamAckManager(*s);
-        n = vp_u32(); lastOut = vp_u32(); lastIn = vp_u32();
-        enabled = enabledMode == 2 ? vp_bool() : enabledMode == 1;
-        vp_assume(n <= VP_NMAX && lastOut >= n && lastOut < SEQ_BOUND && lastIn < SEQ_BOUND);
-        first = lastOut - n + 1;
-        m->m_enabled = enabled; m->m_lastOutgoingSequenceNumber = lastOut; m->m_lastIncomingSequenceNumber = lastIn;
-        for (unsigned i = 0; i < VP_NMAX; i++) {
-            if (i < n) {
-                QXmppPromise<SendResult> p;
-                t[i].emplace(p.task());
-                QByteArray payload; vp_c09_payload(&payload, i);
-                m->m_unacknowledgedStanzas.insert(first + i, QXmppPacket(payload, true, std::move(p)));
-            }
-        }
-    }
-    const void *map() const { return &m->m_unacknowledgedStanzas; }
-    // post-condition: map = n2 entries, entry j has key firstKey+j and is pre-state packet firstId+j, still unreported; INV holds
-    void checkMap(unsigned n2, unsigned firstKey, unsigned firstId, unsigned lastOut2)
-    {
-        vp_assert(vp_c09_map_n(map()) == n2, "C09 unacknowledged store holds exactly the stanzas not yet covered");
-        for (unsigned j = 0; j < VP_NMAX; j++) {
-            if (j < n2) {
-                vp_assert(vp_c09_map_key(map(), j) == firstKey + j, "C09 stored stanzas keep consecutive sequence numbers in original order");
-                QByteArray d = vp_c09_map_val(map(), j)->data();
-                vp_assert(vp_c09_payload_id(&d) == firstId + j, "C09 stored stanzas are the uncovered ones in original order");
-            }
-        }
-        vp_assert(m->m_lastOutgoingSequenceNumber == lastOut2, "C09 outgoing sequence number");
-        vp_assert(n2 == 0 || firstKey + n2 - 1 == lastOut2, "C09 invariant: newest stored key equals the outgoing sequence number");
-        vp_assert(n2 <= lastOut2, "C09 invariant: no more stored stanzas than were numbered");
-    }
-    // reports of pre-state packets: the first k are reported with `repFirst`, the others not at all
-    void checkReports(unsigned k, Rep repFirst)
-    {
-        for (unsigned i = 0; i < VP_NMAX; i++) {
-            if (i < n) {
-                Rep r = report(*t[i]);
-                vp_assert(r == (i < k ? repFirst : R_NONE), "C09 a stanza is reported exactly when covered by the handled-count (acknowledged) or dropped (error), otherwise not at all");
-            }
-        }
-    }
-    void checkUnchangedCounters(bool en) {
-        vp_assert(m->m_enabled == en, "C09 stream-management activity flag");
-        vp_assert(m->m_lastIncomingSequenceNumber == lastIn, "C09 inbound handled-count unchanged by this event");
-    }
-    // the socket log is exactly: pre-state packets firstId.. (cnt of them, ascending), then optionally one <r/>
-    void checkResent(unsigned cnt, bool thenRequest)
-    {
-        vp_assert(vp_c09_sent_n() == cnt + (thenRequest ? 1u : 0u), "C09 exactly the remaining stanzas are transmitted again (plus one ack request)");
-        for (unsigned j = 0; j < VP_NMAX; j++) {
-            if (j < cnt) {
-                vp_assert(vp_c09_sent_kind(j) == K_PACKET && vp_c09_sent_val(j) == (n - cnt) + j, "C09 resend in original order, oldest first, before anything else");
-            }
-        }
-        if (thenRequest) vp_assert(vp_c09_sent_kind(cnt) == K_REQ, "C09 ack request follows the resent stanzas");
-    }
-};
-
-static QDomElement element(const QString &tag, const QString &ns)
-{
-    QDomElement e; vp_dom_new(&e, &tag, &ns); return e;
-}
-static unsigned covered(const World &w, unsigned h)
-{
-    // number of pre-state entries with key <= h (keys are first .. first+n-1)
-    unsigned k = 0;
-    for (unsigned i = 0; i < VP_NMAX; i++) if (i < w.n && w.first + i <= h) k = i + 1;
-    return k;
-}
+#define VP_C09_HOOKS 1
+#include "c09_world.h"
 
 // ---- event: <a h=H/> from the server while stream management is active; H arbitrary (stale, exact, beyond) -------------------
 extern "C" void h_ack_enabled()
 {
     World w(1);
     unsigned h = vp_u32();
-    QDomElement a = element(QStringLiteral("a"), ns_stream_management.toString());
+    QDomElement a = vpElement(QStringLiteral("a"), ns_stream_management.toString());
     QString hs = QString::number(h), hn = QStringLiteral("h");
     vp_dom_set_attr(&a, &hn, &hs);
     bool handled = w.m->handleStanza(a);
-    unsigned k = covered(w, h);
+    unsigned k = w.covered(h);
     vp_assert(handled, "C09 <a/> is consumed by the stream-management layer");
     w.checkReports(k, R_ACKED);                         // acknowledged <=> key <= h
     w.checkMap(w.n - k, w.first + k, k, w.lastOut);
@@ -170,11 +30,11 @@ extern "C" void h_ack_disabled()
 {
     World w(0);
     unsigned h = vp_u32();
-    QDomElement a = element(QStringLiteral("a"), ns_stream_management.toString());
+    QDomElement a = vpElement(QStringLiteral("a"), ns_stream_management.toString());
     QString hs = QString::number(h), hn = QStringLiteral("h");
     vp_dom_set_attr(&a, &hn, &hs);
     w.m->handleStanza(a);
-    unsigned k = covered(w, h);
+    unsigned k = w.covered(h);
     // safety half only (the statement speaks about active stream management): reported => covered, and then dropped from the store
     unsigned gone = 0;
     for (unsigned i = 0; i < VP_NMAX; i++) {
@@ -194,7 +54,7 @@ extern "C" void h_setack()
     World w(2);
     unsigned h = vp_u32();
     w.m->setAcknowledgedSequenceNumber(h);
-    unsigned k = covered(w, h);
+    unsigned k = w.covered(h);
     w.checkReports(k, R_ACKED);
     w.checkMap(w.n - k, w.first + k, k, w.lastOut);
     w.checkUnchangedCounters(w.enabled);
@@ -206,7 +66,7 @@ extern "C" void h_resume()
     unsigned h = vp_u32();
     w.m->setAcknowledgedSequenceNumber(h);
     w.m->enableStreamManagement(false);
-    unsigned k = covered(w, h);
+    unsigned k = w.covered(h);
     w.checkReports(k, R_ACKED);
     w.checkMap(w.n - k, w.first + k, k, w.lastOut);     // numbering continues on a resumed session
     w.checkUnchangedCounters(true);                      // inbound count continues as well
@@ -237,7 +97,7 @@ extern "C" void h_enable_reset()
 extern "C" void h_request()
 {
     World w(2);
-    QDomElement r = element(QStringLiteral("r"), ns_stream_management.toString());
+    QDomElement r = vpElement(QStringLiteral("r"), ns_stream_management.toString());
     bool handled = w.m->handleStanza(r);
     vp_assert(handled, "C09 <r/> is consumed by the stream-management layer");
     if (w.enabled) {
@@ -259,7 +119,7 @@ extern "C" void h_inbound()
     QString ns = nsSel == 0 ? ns_client.toString() : nsSel == 1 ? ns_stream_management.toString() : vpSymString(2);
     bool isSm = ns == ns_stream_management;
     vp_assume(!(isSm && (tag == u"a" || tag == u"r")));   // those two are the events h_ack_* / h_request
-    QDomElement e = element(tag, ns);
+    QDomElement e = vpElement(tag, ns);
     bool handled = w.m->handleStanza(e);
     bool stanza = tag == u"message" || tag == u"presence" || tag == u"iq";
     vp_assert(!handled, "C09 ordinary elements are passed on");
